@@ -28,6 +28,7 @@ def run(ctx):
     ctx.do(CA.rule_c2, "ProjectiveObject")
     ctx.do(SH.rule_sh3)
     ctx.do(SI.rule_s1c)
+    ctx.do(SI.rule_gi1)
     ctx.do(u1, ENTRIES, min_functions=30)
     ctx.r.assume("numerical equality of stored and recomputed derived data "
                  "and the effect of numerical queries (in-place row "
